@@ -5,7 +5,8 @@ from common import Cvec, R, cfl, fl, max_rel_err
 
 LEAN_MODULES = ["PyomaVerif.Props.C02", "PyomaVerif.Props.C02C01", "PyomaVerif.Mutants.C02",
                 "PyomaVerif.Props.C02Matrix", "PyomaVerif.Props.C02Results", "PyomaVerif.Props.C02Driver",
-                "PyomaVerif.Mutants.C02Results", "PyomaVerif.Props.C02State", "PyomaVerif.Mutants.C02State"]
+                "PyomaVerif.Mutants.C02Results", "PyomaVerif.Props.C02State", "PyomaVerif.Mutants.C02State",
+                "PyomaVerif.Props.C02Accepted"]
 THEOREMS = [
     "PV.C02.C02_merge",
     "PV.C02.tail_merge",
@@ -78,6 +79,8 @@ THEOREMS = [
     "PV.C02.normPos_neg",
     "PV.C02.flattenNamesI_ofNat",
     "PV.C02.C02_order_negative_fails",
+    "PV.C02.C02_results_of_accepted",
+    "PV.C02.C02_fresh_ne_of_accepted",
     "PV.Mutants.C02.cached_returns_stale",
     "PV.Mutants.C02.first_denominator_wrong",
     "PV.Mutants.C02.comprehension_differs",
